@@ -974,13 +974,18 @@ def r14(k: Kit) -> None:
         cf = k.func('kex.Kex.check_host_key_sig_alg')
         cg = k.cfg(cf)
         cmp_ok = any(a.kind in ('atom', 'return') and a.ast is not None and
-                     any(isinstance(x, ast.Compare) and
-                         'self._host_key_alg' in names_read(x)
+                     any(isinstance(x, ast.Compare) and len(x.ops) == 1 and
+                         isinstance(x.ops[0], (ast.Eq, ast.NotEq)) and
+                         'self._host_key_alg' in names_read(x) and
+                         len(names_read(x) - {'self', 'self._host_key_alg',
+                                              'get_signature_alg'}) >= 1
                          for x in ast.walk(a.ast)) for a in cg.nodes)
         rep.check(cmp_ok, 'C03.R14',
                   key(cf, 'compares with the negotiated algorithm'),
                   'signature algorithm == f(self._host_key_alg)',
-                  'the check does not involve the negotiated algorithm',
+                  'the check is not an equality between the signature\'s '
+                  'algorithm and the negotiated one (membership in the '
+                  'key\'s algorithm set lets ssh-rsa pass for rsa-sha2-512)',
                   cf.loc(cf.node))
 
 
@@ -1079,3 +1084,55 @@ def run(idx, rep, tier):
     from .shared import share
     from .c06 import r1 as _c06r1
     share(k, 'C03.R16', 'until the peer\'s NEWKEYS the inbound direction is cleartext and serves key exchange messages only (= rows of C06.R1): a post-kex packet injected between our NEWKEYS and the peer\'s is refused, whatever session id already exists', _c06r1, keep=lambda key: 'noenc' in key)
+    rep.rule('C03.R17', 'group exchange, client side: the modulus received '
+             'in KEX_DH_GEX_GROUP is put to use only inside the size range '
+             'the client asked for (a comparison on p.bit_length() guards '
+             '_init_group) - a server, or whoever edits the cleartext '
+             'GROUP message before the host key signature covers it, must '
+             'not move the exchange to a 1024-bit group when 2048..8192 '
+             'was requested')
+    _fg = k.func('kex_dh._KexDHGex._process_group')
+    _gg = k.cfg(_fg)
+    _ini = [n for n, c in k.calls_named(_fg, '_init_group', 'self')]
+    rep.floor('C03.R17', 'group installations', len(_ini), 1)
+    _sz = [a.id for a in _gg.nodes if a.kind == 'atom' and a.ast is not None
+           and any(is_call(x, 'bit_length') for x in ast.walk(a.ast))]
+    for _n in _ini:
+        _w = _gg.path(_gg.entry, _n.id, blocked_nodes=_sz)
+        rep.check(bool(_sz) and _w is None, 'C03.R17',
+                  key(_fg, 'group size inside the requested range'),
+                  'p.bit_length() compared before _init_group',
+                  'any modulus is accepted: asking for 2048..8192 and '
+                  'receiving the 1024-bit group completes the handshake',
+                  k.loc(_fg, _n), _gg.describe_path(_w) if _w else None)
+    rep.rule('C03.R18', 'group exchange, server side: in the walk over '
+             '_dh_gex_groups a group is passed over only when it is '
+             'strictly larger than the client\'s max (gex_size > max_size) '
+             'and the walk stops at the first group of at least the '
+             'preferred size (>=): with ">=" against max a request '
+             '2048/2048/2048 is answered with the 1024-bit group')
+    _fq = k.func('kex_dh._KexDHGex._process_request')
+    _gq = k.cfg(_fq)
+    _cm = [a for a in _gq.nodes if a.kind == 'atom' and isinstance(
+        a.ast, ast.Compare) and len(a.ast.ops) == 1 and
+        'gex_size' in names_read(a.ast)]
+    rep.floor('C03.R18', 'group size comparisons', len(_cm), 2)
+    for _a in _cm:
+        _l, _r = dotted(_a.ast.left), dotted(_a.ast.comparators[0])
+        _op = type(_a.ast.ops[0]).__name__
+        _pair = (_l, _op, _r)
+        _ok = _pair in (('gex_size', 'Gt', 'max_size'),
+                        ('max_size', 'Lt', 'gex_size'),
+                        ('gex_size', 'LtE', 'max_size'),
+                        ('max_size', 'GtE', 'gex_size'),
+                        ('gex_size', 'GtE', 'preferred_size'),
+                        ('preferred_size', 'LtE', 'gex_size'),
+                        ('gex_size', 'Lt', 'preferred_size'),
+                        ('preferred_size', 'Gt', 'gex_size'))
+        rep.check(_ok, 'C03.R18', key(_fq, f'{norm(_a.ast)}'),
+                  'max is inclusive, preferred is a lower bound',
+                  f'`{norm(_a.ast)}`: a group whose size equals the '
+                  'client\'s max is no longer eligible - 2048/2048/2048 '
+                  'gets the 1024-bit group, 3072/4096/4096 the 3072-bit '
+                  'one, below what the client preferred (or its min)',
+                  k.loc(_fq, _a))
